@@ -315,6 +315,8 @@ class Gen:
                 s["minItems"] = r.below(4)
             if r.chance(1, 3):
                 s["maxItems"] = r.below(4)
+            if r.chance(1, 6):
+                s["uniqueItems"] = True       # known finding C08-unique-items: must not excuse the OTHER array keywords
         if t == "object":
             if r.chance(1, 3):
                 s["minProperties"] = r.below(3)
@@ -640,6 +642,12 @@ def gen(rng, tier):
             continue
         sc, val = direct(sch, v, dict(g.defs))
         cases.append(mk_merged(gm3, sc, val))
+    # uniqueItems together with every other array keyword (the recorded finding concerns uniqueItems alone)
+    for other in ({"minItems": 2}, {"maxItems": 1}, {"items": {"type": "number"}}, {"prefixItems": [{"type": "string"}]},
+                  {"minItems": 1, "maxItems": 2}, {"items": False}):
+        for v in ([], [1], [1, 1], [1, 2], ["a", 1], [1, 2, 3], ["a"], [[1], [1]]):
+            sc, val = wrap(dict({"type": "array", "uniqueItems": True}, **other), v, {})
+            cases.append(mk(sc, val))
     # numeric keywords in COMBINATION: multipleOf with each kind of bound, both sides of the bound, quotient on the other
     # side of the bound than the value (an in-place division would show)
     nb = rng.fork("numcombo")
